@@ -36,7 +36,7 @@ ASSUMPTIONS = [
 ]
 RULE = ('every schedule over {D deliver, R start receive, Y run ready queue, C cancel pending receive, S send} of length <= 4 (quick) / <= 6 (thorough), every schedule over '
         '{D,R,Y} of length 5..6 (quick) / 7..8 (thorough), each followed by a deterministic drain (deliver all, receive all) or by close(); x capacities 0..4 x k = 1..2 (quick) / 1..3 (thorough) '
-        'messages x with/without a trailing disconnect; plus, for capacities 1..4, 'fill the queue and park the pump' followed by every tail of <= 2 steps and drain/close; plus random schedules of 5..40 steps with k <= 8. The real falcon.asgi.ws.WebSocket (source mode) is driven; '
+        'messages x with/without a trailing disconnect; plus, for capacities 1..4, "fill the queue and park the pump" followed by every tail of <= 2 steps and drain/close; plus random schedules of 5..40 steps with k <= 8. The real falcon.asgi.ws.WebSocket (source mode) is driven; '
         'non-trivial = at least one message was delivered and received; distinct = distinct (capacity, k, disconnect, schedule, ending)')
 PARTIAL = ('the theorems are about the atomic-segment model; that asyncio runs the real coroutines segment by segment as modelled is established by trace inclusion on every generated '
            'schedule (exhaustive to the stated bounds), not by proof; liveness is stated fairness-free (no_lost_wakeup + resolved_receive_enabled), unbuffered mode is oracle-only')
